@@ -627,7 +627,7 @@ def run(chk, replay=None):
     corr_total = {cat: len(results[cat][0]) for cat in CATS}
 
     # correspondence differs but no monitor failure: widen the search once before calling it broken
-    if any(corr_total.values()) and not chk.violations and not chk.known_hits and not replay and chk.tier == "quick":
+    if any(corr_total.values()) and not chk.violations and not replay and chk.tier == "quick":
         inp2 = Gen(random.Random(chk.seed + 1), "thorough").all()
         r2 = run_once(chk, inp2, "_wide")
         if r2 is not None:
@@ -665,7 +665,7 @@ def run(chk, replay=None):
             broken.append("correspondence %s differs on %d cases, first: %s" % (
                 names[cat], len(cb), json.dumps({"input": case_input(inp, cat, cb[0]),
                                                  "observed": case_obs(obs, cat, cb[0])})[:3000]))
-    if broken and not chk.violations and not chk.known_hits:
+    if broken and not chk.violations:
         chk.fail("broken.txt", "\n\n".join(broken), no_input=True)
     chk.assumptions += [
         "sampling priorities on the exact grid k/2^20 in [0,2) (float64 arithmetic incl. the +2 boost is exact there); "
